@@ -67,7 +67,7 @@ package socket
 //@   nopanic
 //@   requires c != nil && ghost.wpos[ival(c.Conn)] >= 0
 //@   requires [body_fits_the_header] len(request.Body) < 2147483648
-//@   modifies ghost.wpos[ival(c.Conn)], ghost.wstream[ival(c.Conn)]
+//@   modifies ghost.wpos[ival(c.Conn)], ghost.wstream[ival(c.Conn)], @DGW
 //@   let w = ival(c.Conn)
 //@   let p0 = ghost.wpos[ival(c.Conn)]
 //@   ensures [frame_length] err == nil ==> ghost.wpos[w] == p0 + 12 + len(request.Body)
@@ -161,7 +161,7 @@ package socket
 //@   prop C12 C13 C11 C09
 //@   nopanic
 //@   havoc
-//@   modifies ghost.wpos[ival(conn)], ghost.wstream[ival(conn)], ghost.chansent[*], ghost.chanlen[*], ghost.chanrecv[*]
+//@   modifies ghost.wpos[ival(conn)], ghost.wstream[ival(conn)], ghost.chansent[*], ghost.chanlen[*], ghost.chanrecv[*], @DGW
 //@   requires h != nil && ghost.wpos[ival(conn)] >= 0
 //@   loop 1 invariant ghost.wpos[ival(conn)] >= 0
 //@   loop 1 ensures [frame_length] ghost.wpos[ival(conn)] == old(ghost.wpos[ival(conn)]) + 12 + len(body)
